@@ -3,82 +3,11 @@
    lossy helpers), exact-length arrays have their length, integers lie in the range of their type, lists
    never hold more than their capacity, records list exactly the declared members, enumerations hold a
    declared variant, the filtered parameter list holds known algorithms only (C12, C13, C14). *)
-From Ctap Require Import Base Schema Wire Utf8 Typed WellTyped WireP Utf8P StrsP SerP TotalP RoundTripP.
+From Ctap Require Import Base Schema Wire Utf8 Typed WellTyped Within WireP Utf8P StrsP SerP TotalP RoundTripP.
 From Coq Require Import Lia ZifyBool.
 Local Open Scope string_scope.
 Local Open Scope list_scope.
 Local Open Scope Z_scope.
-
-Definition str_within (cap : Z) (v : val) : bool :=
-  match v with VStr s => utf8_valid s && (blen s <=? cap) | _ => false end.
-
-(* member of a decoded record *)
-Definition member_within (wf : ty -> val -> bool) (indexed : bool) (fd : field) (v : val) : bool :=
-  match v with
-  | VNone => true                                   (* absent / defaulted / null *)
-  | _ =>
-      if indexed then
-        if f_opt fd then match v with VSome w => wf (inner_ty (f_ty fd)) w | _ => false end
-        else wf (f_ty fd) v
-      else match f_with fd with
-           | None => wf (f_ty fd) v
-           | Some _ => match v with VSome s => str_within (str_cap (f_ty fd)) s | _ => false end
-           end
-  end.
-
-Fixpoint members_within (ok : field -> val -> bool) (fs : list field) (vs : list (string * val)) : bool :=
-  match fs, vs with
-  | [], [] => true
-  | fd :: fs', (l, v) :: vs' => String.eqb l (f_label fd) && ok fd v && members_within ok fs' vs'
-  | _, _ => false
-  end.
-
-Fixpoint within (e : env) (fuel : nat) (t : ty) (v : val) {struct fuel} : bool :=
-  match fuel with
-  | O => false
-  | S k =>
-      match t, v with
-      | TU8, VZ z => (0 <=? z) && (z <? 256)
-      | TU16, VZ z => (0 <=? z) && (z <? 65536)
-      | TU32, VZ z => (0 <=? z) && (z <? 4294967296)
-      | (TU64 | TUsize), VZ z => (0 <=? z) && (z <? 18446744073709551616)
-      | TI8, VZ z => (-128 <=? z) && (z <=? 127)
-      | TI32, VZ z => (-2147483648 <=? z) && (z <=? 2147483647)
-      | TBool, VBool _ => true
-      | TUnit, VUnit => true
-      | TBytesRef, VBytes _ => true
-      | TBytesCap n, VBytes b => blen b <=? n
-      | TByteArrRef n, VBytes b => blen b =? n
-      | TStrRef, VStr s => utf8_valid s
-      | TStrCap n, VStr s => utf8_valid s && (blen s <=? n)
-      | TVec u cap, VList l => (blen l <=? Z.max 0 cap) && forallb (within e k u) l
-      | TOpt _, VNone => true
-      | TOpt u, VSome w => within e k u w
-      | TNamed name, _ =>
-          match lookup e name, v with
-          | Some (DStruct ix _ _ fs), VRec vs => members_within (member_within (within e k) ix) fs vs
-          | Some (DStrEnum _ _ _ tf), VEnum vn => smem vn (map snd tf)
-          | Some (DRepr _ _ _ vs), VEnum vn => smem vn (map fst vs)
-          | Some (DCustom kind _ _ params), _ =>
-              if String.eqb kind "webauthn::Icon" then match v with VUnit => true | _ => false end
-              else if String.eqb kind "webauthn::FilteredPublicKeyCredentialParameters" then
-                match v with
-                | VList l => (blen l <=? Z.max 0 (hd 0 params))
-                             && forallb (fun kp => match kp with VRec [("alg", VZ a)] => zmem a (tl params) | _ => false end) l
-                | _ => false end
-              else if String.eqb kind "ctap2::AttestationFormatsPreference" then
-                match v with
-                | VRec [("known_formats", VList l); ("unknown", VBool _)] =>
-                    (blen l <=? 2) && forallb (fun x => match x with VEnum _ => true | _ => false end) l
-                | _ => false end
-              else if String.eqb kind "ext::EcdhEsHkdf256PublicKey" then
-                match v with VRec [("x", VBytes x); ("y", VBytes y)] => (blen x <=? 32) && (blen y <=? 32) | _ => false end
-              else false
-          | _, _ => false
-          end
-      | _, _ => false
-      end
-  end.
 
 (* ---------------------------------------------------------------- sound readers *)
 Definition bys (l : bytes) : Prop := Forall (fun b => 0 <= b < 256) l.
